@@ -94,18 +94,50 @@ def scenario(exe, shim, root, seed, stats):
         # damage a few blocks first?  (silent errors -> must be marked bad, time not refreshed)
         damaged = set()
         unsynced = set(pending)
+        dmg_blocks = []
         if rng.chance(1, 2):
             for _ in range(1 + rng.below(2)):
                 b = rng.choice(lay.blocks)
-                if fx.flip_data_block(a, rng, b): damaged.add(b['pos'])
+                if fx.flip_data_block(a, rng, b): damaged.add(b['pos']); dmg_blocks.append(b)
+        ufile = None
+        changed_pos = set()      # stripes where the unsynced file's own block no longer has the recorded bytes
+        par_flipped = set()
         if rng.chance(1, 3):
-            # a file changed since the last sync: differences in its stripes must never be marked
+            # a file changed since the last sync (appended or only touched): differences in its stripes must never be
+            # marked, and a stripe is refreshed only if it was verified correct
             d, rel = rng.choice(s.existing_files())
             p = a.path(d, rel)
-            with open(p, 'ab') as f: f.write(b'changed-after-sync')
+            oldsize = os.path.getsize(p)
+            st = os.lstat(p)
+            how = rng.choice(['append', 'touch', 'edit'])
+            edit_idx = None
+            if how == 'append':
+                # the recorded extent of the file keeps its bytes (scrub reads the recorded size only)
+                with open(p, 'ab') as f: f.write(b'changed-after-sync')
+            elif how == 'touch' or oldsize == 0:
+                os.utime(p, ns=(st.st_atime_ns, st.st_mtime_ns + 3_000_000_001))
+            else:
+                off = rng.below(oldsize); edit_idx = off // a.block
+                with open(p, 'r+b') as f:
+                    f.seek(off); c = f.read(1); f.seek(off); f.write(bytes([c[0] ^ 0x44]))
+                os.utime(p, ns=(st.st_atime_ns, st.st_mtime_ns + 5_000_000_003))
+            ufile = (d, os.fsencode(rel))
             for b in lay.blocks:
-                if b['disk'] == d and os.fsdecode(b['sub']) == rel: unsynced.add(b['pos'])
-        both = damaged & unsynced      # a really damaged block in a stripe that also holds an unsynced file: no verdict
+                if b['disk'] == d and os.fsdecode(b['sub']) == rel:
+                    unsynced.add(b['pos'])
+                    if edit_idx is not None and b['idx'] == edit_idx: changed_pos.add(b['pos'])
+            # wrong parity in a stripe of the unsynced file (sometimes)
+            mine = sorted(b['pos'] for b in lay.blocks if b['disk'] == d and os.fsdecode(b['sub']) == rel)
+            if mine and rng.chance(1, 2):
+                pp = rng.choice(mine)
+                if fx.flip_parity_block(a, rng, rng.below(a.nparity), pp): par_flipped.add(pp)
+        both = set(p for p in damaged if p in unsynced)
+        # what a selected stripe that holds an unsynced block must look like afterwards
+        both_expect = {}
+        for pos in both:
+            own = [b for b in dmg_blocks if b['pos'] == pos and ufile is not None and (b['disk'], b['sub']) == ufile]
+            other = [b for b in dmg_blocks if b['pos'] == pos and not (ufile is not None and (b['disk'], b['sub']) == ufile)]
+            both_expect[pos] = 'bad' if other else 'unchanged'
         damaged -= both
         kind = rng.choice(['full', 'new', 'bad', 'pct', 'pct', 'pct', 'default'])
         if kind == 'pct':
@@ -143,12 +175,20 @@ def scenario(exe, shim, root, seed, stats):
                 before_i = infos[pos]
                 ai = after.info.get(pos)
                 ai = None if ai is None else (ai[1], (2 if ai[2] else 0) | (4 if ai[3] else 0) | (8 if ai[4] else 0))
-                if before_i is None or pos in both:
+                if before_i is None or pos in pending:
                     continue
                 if pos in unsynced:
-                    # never marked; untouched or (if really equal) refreshed is not possible since data differs
-                    if ai is not None and (ai[1] & 2):
-                        problem = 'stripe %d differs only because a file changed since the last sync, but was marked bad' % pos; break
+                    stats['unsynced_stripes'] = stats.get('unsynced_stripes', 0) + 1
+                    if not sel[pos]:
+                        want_i = before_i
+                    elif both_expect.get(pos) == 'bad':
+                        want_i = (before_i[0], before_i[1] | 2)       # silent error of a SYNCED file in this stripe: a data error
+                    elif pos in both or pos in changed_pos or pos in par_flipped:
+                        want_i = before_i                             # differences caused by the changed file: not marked, not refreshed
+                    else:
+                        want_i = (NOW, 0)                             # the blocks still have the recorded bytes: verified
+                    if ai != want_i:
+                        problem = 'stripe %d holds a block of a file changed since the last sync: info after scrub %s, expected %s (selected=%s, block of the changed file differs=%s, parity wrong=%s, silent error of another file=%s)' % (pos, ai, want_i, sel[pos], pos in changed_pos, pos in par_flipped, both_expect.get(pos)); break
                     continue
                 if sel[pos]:
                     stats['selected'] += 1
